@@ -494,7 +494,7 @@ impl XType {
                             spec.generic_names
                                 .iter()
                                 .zip(types.iter())
-                                .map(|(n, t)| (*n, t.clone().resolve_bind(bind, None))),
+                                .map(|(n, t)| (*n, t.clone().resolve_bind(bind, tail))),
                         );
                         Arc::new(Self::Compound(*kind, spec.clone(), bind))
                     } else {
